@@ -24,137 +24,60 @@ ASSUMPTIONS = ["Meyer's range-based set reconciliation algorithm is correct when
 
 
 def r1(ctx):
+    """the decisions of process_message as evaluated tables (K6', see eval_process_message): the function's MIR is evaluated
+    on the cells below, so the verdict does not depend on how the decisions are spelled (closures, helpers, adaptors)"""
+    from . import feval as E
     f = ctx.facts
     pm = f.body(PM)
-    ctx.touch(pm)
-    # (a) the diff filter
-    fm = f.body(PM + "::{closure#0}")
-    an = f.body(PM + "::{closure#0}::{closure#0}")
-    ctx.touch(fm, an)
-    rows = {}
-    for p in P.explore(fm):
-        d = None
-        a = None
-        for k, v in p.decisions:
-            if k[0] == "discr" and "our_entry" in k[1]:
-                d = "Ok" if v == 0 else "Err"
-            if k[0] == "call" and k[1] == "any":
-                a = bool(v)
-        rows[(d, a)] = P.short(p.ret).split("(")[0] + ("(Err" if "Err(" in P.short(p.ret) else "")
-    want = {("Err", None): "Some(Err", ("Ok", True): "None", ("Ok", False): "Some"}
-    ctx.check(rows == want, "C01.R1a", fm.path, "send-iff-no-covering-peer-value",
-              "(our entry, any(covering peer value)) -> emitted: %s; spec: withheld iff some peer value covers it, store errors are forwarded" % rows, fm.sp)
-    tbl = None
-    keyeq = None
-    for p in P.explore(an):
-        for k, v in p.decisions:
-            if k[0] == "cmp" and "key(" in k[2] and "key(" in k[3] and k[1] == "==":
-                if v == 0:
-                    keyeq = P.short(p.ret) == "0"
-                elif p.ret[0] == "call":
-                    t = p.ret[2]
-                    n = t["f"].get("name")
-                    from .common import CMP_METHODS
-                    if n in CMP_METHODS:
-                        def lab(op):
-                            s = set()
-                            for o in trace(an, op, view=C02.VIEW_VALUE):
-                                if o.kind == "upvar" and o.data == "our_entry":
-                                    s.add("ours")
-                                elif o.kind == "arg":
-                                    s.add("theirs")
-                                else:
-                                    s.add("?")
-                            return s.pop() if len(s) == 1 else None
-                        la, lb = lab(t["a"][0]), lab(t["a"][1])
-                        tt = TRUTH[CMP_METHODS[n]]
-                        if (la, lb) == ("theirs", "ours"):
-                            tt = flip(tt)
-                        elif (la, lb) != ("ours", "theirs"):
-                            tt = None
-                        tbl = tt
-    spec = {"Less": True, "Equal": True, "Greater": False}
-    ctx.check(keyeq is True, "C01.R1a", an.path, "different-key-never-covers", "a peer value with another key never withholds our entry", an.sp)
-    ctx.check(tbl == spec, "C01.R1a", an.path, "covered-iff-not-newer",
-              "covered(cmp(ours, theirs)) = %s; spec %s (we send ours only if strictly newer than the peer's value for the key)" % (tbl, spec), an.sp)
-    # the values compared against are the values of this very item
-    # (b),(c),(d) in the coroutine body
-    cms = [c for c in comparisons(pm) if not mir.is_noise(c["x"]) and not (c["x"] and "debug_assert" in c["x"])]
+    ctx.touch(pm, *[b for p_, b in f.bodies.items() if p_.startswith(PMF + "::")])
 
-    def summ(op):
-        return sorted({origin_summary(o) for o in trace(pm, op, through_calls=False)})
-    fp_eq = [c for c in cms if c["op"] == "==" and any("get_fingerprint" in origin_summary(x) or "branch" in origin_summary(x) for x in trace(pm, c["a"], through_calls=False))
-             and not any("Fingerprint::empty" in s for s in summ(c["b"]))]
-    fp_eq = [c for c in fp_eq if any(o.kind == "call" and o.data["f"].get("name") == "get_fingerprint" for o in trace(pm, c["a"]) ) or
-             any(o.kind == "call" and o.data["f"].get("name") == "branch" and any(x.kind == "call" and x.data["f"].get("name") == "get_fingerprint" for x in trace(pm, o.data["a"][0], through_calls=False)) for o in trace(pm, c["a"], through_calls=False))]
-    pushes = [bi for bi, t in pm.calls() if t["f"].get("name") == "push" and any(mir.field_path(o) == () and (pm.local_name(o.data[0]) if o.kind == "arg" else None) is None for o in [])]
-    out_l = pm.local_by_name("out")
-    pushes = []
-    for bi, t in pm.calls():
-        if t["f"].get("name") == "push" and out_l:
-            if any((x.kind == "call" and x.data["f"].get("name") == "new") or True for x in []):
-                pass
-            src = trace(pm, t["a"][0], whole_only=True)
-            if any(o.kind == "call" and o.data["f"].get("name") == "new" and o.site and pm.blocks[o.site[0]]["t"]["d"]["l"] == out_l[0] for o in src):
-                pushes.append(bi)
-    if len(fp_eq) != 1:
-        ctx.bad("C01.R1b", PM, "fingerprint-compare.form", "expected one comparison of the local range fingerprint with the received one, found %d (UNSUPPORTED-FORM)" % len(fp_eq), pm.sp)
-    else:
-        c = fp_eq[0]
-        e = follow_value(pm, c["dest"]["l"]).get("true")
-        gf = [bi for bi, t in pm.calls() if t["f"].get("name") == "get_fingerprint" and pm.dominates(bi, c["bb"])]
-        ok = bool(e)
-        if ok:
-            # from the equal edge, the next thing is the loop head (next fingerprint) - no push to `out` before it
-            heads = [bi for bi, t in pm.calls() if t["f"].get("name") == "next" and pm.dominates(bi, c["bb"])]
-            head = max(heads, key=lambda x: len(pm.dominators()[x])) if heads else None
-            region = pm.reach_from_edges([e[1]], avoid={head} if head is not None else set())
-            ok = head is not None and not any(p in region for p in pushes) and not any(pm.blocks[x]["t"]["k"] == "return" for x in region)
-        ctx.check(ok, "C01.R1b", PM, "equal-fingerprints-skip-range", "on local == remote fingerprint the range produces no output and the loop continues", c["loc"])
-        rf = {origin_summary(o) + "." + ".".join(mir.field_path(o)) for o in trace(pm, c["b"])}
-        ctx.check(any("fingerprint" in x for x in rf), "C01.R1b", PM, "compares-with-received-fingerprint", "%s" % sorted(rf), c["loc"])
-    # (c) recursion anchor
-    le1 = [c for c in cms if c["op"] in ("<=", "<") and c["b"][0] == "const" and any(o.kind == "call" and o.data["f"].get("name") == "branch" for o in trace(pm, c["a"], through_calls=False))]
-    emp = [c for c in cms if c["op"] == "==" and any("Fingerprint::empty" in s for s in summ(c["b"]) + summ(c["a"]))]
-    okc = False
-    det = "count comparisons %d, empty-fingerprint comparisons %d" % (len(le1), len(emp))
-    if len(le1) == 1 and len(emp) == 1:
-        c = le1[0]
-        bound = c["b"][1].get("val")
-        from_len = any(o.kind == "call" and o.data["f"].get("name") == "branch" and any(x.kind == "call" and x.data["f"].get("name") == "get_range_len" for x in trace(pm, o.data["a"][0], through_calls=False)) for o in trace(pm, c["a"], through_calls=False))
-        sat = {n for n in range(0, 4) if (n <= bound if c["op"] == "<=" else n < bound)}
-        # anchor items are pushed with have_local = false in the region dominated by (count small) or (fp empty)
-        e1 = follow_value(pm, c["dest"]["l"]).get("true")
-        e1f = follow_value(pm, c["dest"]["l"]).get("false")
-        e2 = follow_value(pm, emp[0]["dest"]["l"]).get("true")
-        e2f = follow_value(pm, emp[0]["dest"]["l"]).get("false")
-        # `||`: the empty test is evaluated on the false edge of the count test
-        chained = bool(e1f) and pm.edge_dominates(e1f[0], e1f[1], emp[0]["bb"])
-        okc = from_len and sat == {0, 1} and chained and bool(e1) and bool(e2)
-        det = "anchor iff count in %s or remote fingerprint == empty (count from get_range_len: %s, `||` chained: %s)" % (sorted(sat), from_len, chained)
-        if okc:
-            # Case 3 (recursion): every RangeFingerprint part is produced only when both tests fail
-            fps = [bi for bi, si, s in pm.statements() if s["k"] == "assign" and s["r"][0] == "agg" and s["r"][1][0] == "adt" and s["r"][1][1].endswith("MessagePart") and s["r"][1][2] == "RangeFingerprint"]
-            okc = bool(e2f) and bool(fps) and all(pm.edge_dominates(e2f[0], e2f[1], x) for x in fps)
-            det += "; sub-range fingerprints are produced only when both tests fail: %s" % okc
-    ctx.check(okc, "C01.R1c", PM, "recursion-anchor", det, le1[0]["loc"] if le1 else pm.sp)
-    # (d) items inlined iff chunk size <= max_set_size
-    szc = [c for c in cms if any(o.kind == "call" and o.data["f"].get("name") == "len" for o in trace(pm, c["a"], through_calls=False)) and
-           any("max_set_size" in ".".join(mir.field_path(o)) for o in trace(pm, c["b"]))]
-    okd = False
-    det = "found %d size comparisons" % len(szc)
-    if len(szc) == 1:
-        c = szc[0]
-        tbl = TRUTH[c["op"]]
-        edges = follow_value(pm, c["dest"]["l"])
-        fps = [bi for bi, si, s in pm.statements() if s["k"] == "assign" and s["r"][0] == "agg" and s["r"][1][0] == "adt" and s["r"][1][1].endswith("MessagePart") and s["r"][1][2] == "RangeFingerprint"]
-        t_e, f_e = edges.get("true"), edges.get("false")
-        fp_on_true = bool(t_e) and any(pm.edge_dominates(t_e[0], t_e[1], x) for x in fps)
-        fp_on_false = bool(f_e) and any(pm.edge_dominates(f_e[0], f_e[1], x) for x in fps)
-        sends_fp = {o: (tbl[o] if fp_on_true else (not tbl[o] if fp_on_false else None)) for o in tbl}
-        okd = sends_fp == {"Less": False, "Equal": False, "Greater": True}
-        det = "fingerprint-instead-of-items(cmp(chunk len, max_set_size)) = %s; spec: only when Greater" % sends_fp
-    ctx.check(okd, "C01.R1d", PM, "inline-items-iff-chunk-fits", det, szc[0]["loc"] if szc else pm.sp)
+    def run(label, fn):
+        try:
+            return fn()
+        except E.Unsupported as e:
+            return "UNSUPPORTED-FORM: %s" % e
+    # (a) the diff filter: our entry is withheld iff the peer sent the same key with a value not Less than ours
+    tbl = {}
+    for o, nm in ((-1, "Less"), (0, "Equal"), (1, "Greater")):
+        r = run(nm, lambda: eval_process_message(f, [2, 4], [("item", 1, 5, [2], False)], their_order={2: o})[0])
+        tbl[nm] = r if isinstance(r, str) else ("withheld" if r == [("item", 1, 5, [("e4", "status(e4)")], 1)] else ("sent" if r == [("item", 1, 5, [("e2", "status(e2)"), ("e4", "status(e4)")], 1)] else r))
+    spec = {"Less": "sent", "Equal": "withheld", "Greater": "withheld"}
+    ctx.check(tbl == spec, "C01.R1a", PM, "covered-iff-not-newer",
+              "our entry for a key the peer also sent, by cmp(their value, ours): %s; spec %s (we send ours only if strictly newer than the peer's value for the key)" % (tbl, spec), pm.sp)
+    r = run("other", lambda: eval_process_message(f, [2, 4], [("item", 1, 5, [3], False)], their_order={})[0])
+    ctx.check(r == [("item", 1, 5, [("e2", "status(e2)"), ("e4", "status(e4)")], 1)], "C01.R1a", PM, "different-key-never-covers", "peer sends only key 3, we hold 2 and 4: reply %s (spec: both of ours)" % (r,), pm.sp)
+    r = run("err", lambda: eval_process_message(f, [2, 4], [("item", 1, 5, [3], False)], row_error=4)[0])
+    ctx.check(isinstance(r, tuple) and r[0] == "Err", "C01.R1a", PM, "send-iff-no-covering-peer-value", "a row of the range scan that fails to load: %s (spec: the error is forwarded, not dropped)" % (r,), pm.sp)
+    # (b) equal fingerprints: no output for the range
+    rows = {}
+    for x, y in ((0, 0), (0, 4), (4, 2)):
+        keys = [k for k in (1, 3, 5) if _in_range(k, x, y)]
+        rows["[%d,%d)" % (x, y)] = run("eq", lambda: eval_process_message(f, [1, 3, 5], [("fp", x, y, keys)])[0])
+    ctx.check(all(v is None for v in rows.values()), "C01.R1b", PM, "equal-fingerprints-skip-range", "reply when the peer's fingerprint of the range equals ours: %s (spec: none)" % rows, pm.sp)
+    # (c) recursion anchor iff at most one local entry in the range, or the peer's fingerprint is that of the empty set
+    rows = {}
+    for store in ([], [2], [2, 3], [2, 3, 4]):
+        for remote in ("different", "empty"):
+            if not store and remote == "empty":
+                continue
+            r = run("anchor", lambda: eval_process_message(f, store, [("fp", 1, 6, [9] if remote == "different" else [])])[0])
+            if isinstance(r, list):
+                r = "all-entries-as-items" if r == [("item", 1, 6, [("e%d" % k, "status(e%d)" % k) for k in store], 0)] else ("split" if len(r) >= 2 else r)
+            rows[(len(store), remote)] = r
+    want = {(n, rm): ("all-entries-as-items" if (n <= 1 or rm == "empty") else "split") for (n, rm) in rows}
+    ctx.check(rows == want, "C01.R1c", PM, "recursion-anchor", "(local entries in the range, peer's fingerprint) -> %s; spec: anchor iff count <= 1 or the peer's side is empty" % rows, pm.sp)
+    # (d) a sub-range is sent as items iff it holds at most max_set_size entries
+    rows = {}
+    for maxset in (1, 2, 3):
+        r = run("chunk", lambda: eval_process_message(f, [1, 2, 3, 4], [("fp", 0, 0, [9])], split=2, maxset=maxset)[0])
+        if isinstance(r, list):
+            for p_ in r:
+                n = len([k for k in (1, 2, 3, 4) if _in_range(k, p_[1], p_[2])])
+                rows[(n, maxset)] = p_[0]
+        else:
+            rows[("?", maxset)] = r
+    want = {k: ("item" if k[0] != "?" and k[0] <= k[1] else "fp") for k in rows}
+    ctx.check(bool(rows) and rows == want and len({v for v in rows.values()}) == 2, "C01.R1d", PM, "inline-items-iff-chunk-fits", "(entries in the sub-range, max_set_size) -> part kind: %s; spec: items iff the count is not Greater than max_set_size" % rows, pm.sp)
     ctx.floor("C01.R1a", 3)
     ctx.floor("C01.R1b", 1)
     ctx.floor("C01.R1c", 1)
@@ -338,7 +261,7 @@ def _range_order(keys, x, y):
     return ks
 
 
-def eval_process_message(f, store, parts, split=2, maxset=1, their_order=None, invalid=(), not_inserted=(), range_error=False):
+def eval_process_message(f, store, parts, split=2, maxset=1, their_order=None, invalid=(), not_inserted=(), range_error=False, row_error=None):
     """ranger::Store::process_message evaluated (K6', awaits driven to completion) on a store holding the integer keys
     `store` (entry e<k> has key k<k>), with the storage trait, the entry accessors and the three callbacks answered by an
     oracle. parts: ("fp", x, y, keys whose fingerprint the peer reports) / ("item", x, y, [their keys], have_local).
@@ -412,7 +335,7 @@ def eval_process_message(f, store, parts, split=2, maxset=1, their_order=None, i
                 x, y = range_of(it, args[1])
                 if range_error:
                     return E.Err(E.Tok("storage-error"))
-                return E.Ok(coll.seq("iter", [E.Ok(E.Tok("e%d" % k)) for k in _range_order(store, x, y)]))
+                return E.Ok(coll.seq("iter", [E.Err(E.Tok("row-error")) if k == row_error else E.Ok(E.Tok("e%d" % k)) for k in _range_order(store, x, y)]))
             if name == "get_range_len":
                 x, y = range_of(it, args[1])
                 return E.Ok(E.Int(len([k for k in store if _in_range(k, x, y)])))
